@@ -44,8 +44,8 @@ CHECKS = {
  "C10": dict(
    text="Lean theorems for every byte stream in every segmentation: the connection handler model never ends by a panic (no index/overflow/advance panic in check, parse, parse_frame, the reader loop, "
         "the command layer; replies are never arrays so write_frame never hits unimplemented!); the store afterwards is exactly the store before with the leading well-formed commands applied; accepted "
-        "lengths never exceed the bytes received. Tied to the real server: ~55 hostile streams (garbage, wrong arity, non-UTF-8, truncations, 200000-deep nesting, 19-20 digit lengths, mutations) each on its "
-        "own connection interleaved with a well-behaved persistent connection; process/run loop alive, control replies and final store equal the model's. Byte level (Props/C06Bytes.lean): for arbitrary bytes the frames read are a unique run of complete frames followed by one terminal result; the final store is the fold of exactly the well-formed commands decoded before the first error (named, not just existential), of which only SET/DEL change it.",
+        "lengths never exceed the bytes received. Tied to the real server: ~190 hostile streams (garbage, wrong arity, non-UTF-8, truncations, 200000-deep nesting, 19-20 digit lengths, mutations) each on its "
+        "own connection interleaved with a well-behaved persistent connection; process/run loop alive, control replies and final store equal the model's. Byte level (Props/C06Bytes.lean): for arbitrary bytes the frames read are a unique run of complete frames followed by one terminal result; the final store is the fold of exactly the well-formed commands decoded before the first error (named, not just existential), of which only SET/DEL change it. The key validator (Props/C10Utf8.lean): `validUtf8` accepts exactly the UTF-8 encodings of sequences of Unicode scalar values = exactly the byte strings of Lean `String`s (sound and complete; so no lone continuation byte, impossible byte, truncated or overlong sequence, surrogate or code point beyond U+10FFFF is accepted); tied by sending non-UTF-8 keys of every such kind in SET / GET / DEL (python's decoder as the reference) and reading the store through a direct handle afterwards; peers that connect and stay silent; array / bulk lengths of every size announced and never honoured.",
    note=COMMON_NOTE + "PARTIAL: isolation between connections is structural in the model (connections share only the store); tokio's containment of a task panic, memory exhaustion by sheer volume and the "
         "stack bound of the real recursion (depth limit 32 proved for the model, real stack use observed) are runtime facts.",
    technique="Lean 4 proof (totality + store = fold of well-formed command prefix) + hostile-corpus replay against the real server",
